@@ -62,11 +62,17 @@ func verbBodyAgreement(r *core.Run) {
 	setsBody := func(n ast.Node) bool {
 		hit := false
 		ast.Inspect(n, func(x ast.Node) bool {
-			if as, ok := x.(*ast.AssignStmt); ok {
-				for _, l := range as.Lhs {
+			switch y := x.(type) {
+			case *ast.AssignStmt:
+				for _, l := range y.Lhs {
 					if s, ok := core.Unparen(l).(*ast.SelectorExpr); ok && s.Sel.Name == "Body" && strings.HasSuffix(core.TypeStr(winfo.TypeOf(s.X)), "annotations.HttpRule") {
 						hit = true
 					}
+				}
+			case *ast.CompositeLit:
+				// the rule built as a literal with its Body
+				if strings.HasSuffix(core.TypeStr(winfo.TypeOf(y)), "annotations.HttpRule") && litKey(y, "Body") != nil {
+					hit = true
 				}
 			}
 			return !hit
